@@ -233,3 +233,15 @@ func (mgr *Manager) VerifListenerCount() int {
 	}
 	return <-c
 }
+
+// VerifStopConverterProcesses ends the idle converter processes of this instance (inside the service loop).
+func (mgr *Manager) VerifStopConverterProcesses() {
+	c := make(chan struct{})
+	mgr.jobs <- func() {
+		for _, cv := range mgr.converters {
+			cv.VerifStopProcesses()
+		}
+		close(c)
+	}
+	<-c
+}
